@@ -160,9 +160,12 @@ def check(run):
 
     # ---------------- R18.3 error isolation and version check
     loops = []
+    from .. import emission as _em
     for n_, parents in ir.walk_with_parents(mg["body"]):
-        if n_.get("k") == "RangeFor" and path(n_.get("range")) and path(n_.get("range"))[0].startswith("l:input_files"):
-            loops.append((n_, [p for p in parents if p.get("k") == "Try"]))
+        if n_.get("k") in ("RangeFor", "For"):
+            rp_ = _em.loop_range_path(n_, env)          # range-for, or `for (i = 0; i < c.size(); ++i)`
+            if rp_ and rp_[0].startswith("l:input_files"):
+                loops.append((n_, [p for p in parents if p.get("k") == "Try"]))
     ok = len(loops) == 2
     for i, (lp, outer_try) in enumerate(loops):
         body = ir.stmts(lp.get("body"))
@@ -182,7 +185,37 @@ def check(run):
                "each input is opened and processed inside its own try; the handler reports and continues with the next input" if good else
                "pass %d does not isolate inputs: a failing input must not disturb the others (try inside the loop body, handler must not leave the loop)" % (i + 1))
     if not ok:
-        run.ob("R18.3", "cdns_merge:two-passes", None, mg, mg["line"], "expected two range-for passes over the inputs, found %d" % len(loops))
+        run.ob("R18.3", "cdns_merge:two-passes", None, mg, mg["line"], "expected two passes over the inputs, found %d" % len(loops))
+    # the reference preamble (and with it the version every other input is compared with) comes from the first input that
+    # could be *read*: the assignment sits under a flag that is lowered right there, not under the position in the list
+    if loops:
+        p1 = loops[0][0]
+        ref_assign = None
+        for st, g, loops_ in ir.guarded_statements(p1.get("body"), env):
+            if st.get("k") in ("IfCond", "LoopHead", "SwitchHead"):
+                continue
+            for lp_, rhs_, node_ in consumption.assignment_targets([st]):
+                rp_ = path(rhs_)
+                if lp_ and len(lp_) == 1 and lp_[0].startswith("l:") and rp_ and rp_[-1] == "m_file_preamble":
+                    ref_assign = (lp_, node_, g)
+        if ref_assign is None:
+            run.ob("R18.3", "cdns_merge:reference-from-first-readable", None, mg, p1.get("l", 0), "no `preamble = reader.m_file_preamble` found in the first pass")
+        else:
+            lp_, node_, g = ref_assign
+            flags = [a for a in conjuncts(g) if a[0] == "nz" and str(a[1]).startswith("l:")]
+            positional = [a for a in conjuncts(g) if a[0] == "cmp" or (a[0] == "not" and a[1][0] == "nz" and not str(a[1][1]).startswith("l:"))]
+            lowered = False
+            for st, g2, loops_ in ir.guarded_statements(p1.get("body"), env):
+                if st.get("k") in ("IfCond", "LoopHead", "SwitchHead"):
+                    continue
+                for lp2, rhs2, node2 in consumption.assignment_targets([st]):
+                    if flags and lp2 == (str(flags[0][1]),) and const_value(rhs2) in (0, False) and g2 == g:
+                        lowered = True
+            okf = len(flags) == 1 and lowered and not [a for a in conjuncts(g) if a[0] == "cmp"]
+            run.ob("R18.3", "cdns_merge:reference-from-first-readable", okf, mg, node_.get("l", 0),
+                   "the reference preamble is taken from the first input that opens, under a flag lowered in the same place" if okf else
+                   "the reference preamble is taken when %s: if that input cannot be read, every later input is compared with a default "
+                   "preamble (and rejected or mis-versioned) instead of with the first readable input" % show_f(g))
     # version check: all three members compared, mismatch throws
     ver = None
     for n_ in ir.walk(mg["body"]):
@@ -195,7 +228,7 @@ def check(run):
            "major, minor and private version are all compared; any mismatch rejects the input" if ok else
            "the version check must reject an input when any of major/minor/private version differs")
     # registration happens only after the version check (in the else branch / after the throw)
-    run.floor("R18.3", 3, "isolation obligations")
+    run.floor("R18.3", 4, "isolation obligations")
 
     # ---------------- R18.4 itemcount
     ic = tool_main(facts, "cdns_itemcount.cpp", "R18.4")
